@@ -166,6 +166,19 @@ def gen_cases(tier, seed):
             case["_variant"] = "asan"
             case["_weight"] = 0.5
         cases.append(case)
+    # angular degrees above the default: lmax 16..24 on shells with 350..974 Lebedev points (supported degree of a shell is
+    # min(lmax, order // 2): 15 for 350 points, 17 for 434, 20 for 590, 23 for 770, 26 for 974) - added after a seeded
+    # change of the points -> degree table that only matters for lmax >= 17
+    big = [(12, 434), (10, 590), (8, 770), (14, 350), (8, 974), (10, 302)]
+    nhi = 6 if quick else 36
+    for j in range(nhi):
+        cfg = {k: v[j % n] for k, v in ax.items()}
+        cfg.update(mol=["HF", "He", "H2O", "LiH"][j % 4], level=0, ag_form="tuple", atom_grid=list(big[j % len(big)]),
+                   prune=["none", "treutler", "nwchem"][j % 3], lmax=[17, 20, 24, 16, 18, 23][(j + j // 6) % 6],
+                   thresholds=[1e-7], offnorm=False, rebuild=False, relevel=False, nalpha=2)
+        _, natm = _elements(cfg["mol"])
+        cases.append({"id": "hiL%02d-%s-%dx%d-%s-L%d" % (j, cfg["mol"], cfg["atom_grid"][0], cfg["atom_grid"][1], cfg["prune"], cfg["lmax"]),
+                      "cfg": cfg, "seed": seed, "idx": 5000 + j, "_threads": 2, "_weight": float(natm * 4), "_timeout": 900})
     return cases
 
 
@@ -467,6 +480,26 @@ def _check_state(rec, mol, g, p, st, cfg, stage, full=True):
     return out
 
 
+def _real_sph_scipy(xyz, l):
+    """Orthonormal real spherical harmonics of degree l at unit vectors (n, 3) from scipy's complex ones: (n, 2l+1)."""
+    import scipy.special as sp
+    pol = np.arccos(np.clip(xyz[:, 2], -1.0, 1.0))
+    az = np.arctan2(xyz[:, 1], xyz[:, 0])
+    cols = []
+    for m in range(-l, l + 1):
+        if hasattr(sp, "sph_harm_y"):
+            y = sp.sph_harm_y(l, abs(m), pol, az)
+        else:
+            y = sp.sph_harm(abs(m), l, az, pol)
+        if m < 0:
+            cols.append(np.sqrt(2.0) * y.imag)
+        elif m == 0:
+            cols.append(y.real)
+        else:
+            cols.append(np.sqrt(2.0) * y.real)
+    return np.stack(cols, axis=1)
+
+
 def _check_ylm(rec, ind, L, st):
     """Orthonormality / zero-above / degree-l span / dirs per distinct (ylm block, Lebedev size)."""
     from pyscf.dft import gen_grid as gg
@@ -491,13 +524,17 @@ def _check_ylm(rec, ind, L, st):
                   detail={"n_ang": n, "degree": deg, "lmax_shell": lsh})
         rec.require("ylm_zero_above_shell_lmax", bool(np.all(Y[:, nl:] == 0.0)), mechanism="ylm:nonzero-above-shell-lmax",
                     detail={"n_ang": n, "lmax_shell": lsh})
-        ref = sph.real_sph_vec(leb[:, :3], lsh, reorder_p=False)
+        ref = sph.real_sph_vec(leb[:, :3], min(lsh, 15), reorder_p=False)   # pyscf's cart2sph stops at l = 15
         span = 0.0
         for l in range(lsh + 1):
             Yl = Y[:, l * l:(l + 1) ** 2]
-            Mx = (Yl.T * wq) @ np.asarray(ref[l]).T
+            if l <= 15:
+                R = np.asarray(ref[l]).T
+                worst["conv"] = max(worst["conv"], float(np.max(np.abs(Yl - R))))
+            else:
+                R = _real_sph_scipy(leb[:, :3], l)     # any orthonormal basis of the degree-l harmonics decides the span
+            Mx = (Yl.T * wq) @ R
             span = max(span, float(np.max(np.abs(Mx @ Mx.T - np.eye(2 * l + 1)))))
-            worst["conv"] = max(worst["conv"], float(np.max(np.abs(Yl - np.asarray(ref[l]).T))))
         rec.check("ylm_blocks_span_degree_l_harmonics", span, TOL_YLM, mechanism="ylm:not-degree-l-harmonics",
                   detail={"n_ang": n})
         d = ind.dirs[y0:y0 + n]
